@@ -490,3 +490,10 @@ func (c *Conn) EndInboundLocked(offset int, err error) { c.endInbound(offset, er
 
 // SendLocked is Send for scripts that run with Mu held.
 func (c *Conn) SendLocked(b []byte, note string) { c.send(b, note) }
+
+// ReadDeadlineArmed tells whether a read deadline is set; Mu held.
+func (c *Conn) ReadDeadlineArmed() bool { return c.rdl }
+
+// MidPacket tells whether the delivered position is inside an inbound packet
+// (or before the end of the CONNACK); Mu held.
+func (c *Conn) MidPacket() bool { return c.insidePacket() }
